@@ -882,9 +882,9 @@ class Length(object):
         if self.units == "px" or self.units == "":
             return self.amount
         if self.units == "pt":
-            return self.amount * 3.0 / 4.0
+            return self.amount * 4.0 / 3.0
         if self.units == "pc":
-            return self.amount / 16.0
+            return self.amount * 16.0
         return None
 
     def in_inches(self):
